@@ -10,6 +10,7 @@ import ArcSwapModel.Tie.RwWaitForReaders
 import ArcSwapModel.Tie.DebtPayAll
 import ArcSwapModel.Tie.DebtPay
 import ArcSwapModel.Tie.Sites
+import ArcSwapModel.Inv.Hist
 
 /-!
 # C04 — writes are totally ordered; each replaced value is handed back exactly once
@@ -27,9 +28,12 @@ facts about single steps, in any state):
 * `C04_only_writes_write`: no other step of any sub-machine (loads, the debt walk, helping, guard
   drops and promotions, the node list) changes any cell or history.
 
-Not proved yet (the full statement needs the global accounting invariant, C02): every value put
-into a container comes out exactly once (as one result of swap/cas/rcu/into_inner or released by
-`Drop`), and the returned handle owns a full reference independent of the container.
+Global (end of the file, `Inv/Hist.lean`): along every execution the container holds the object
+whose identity is the head of its history, and the history only grows at the front by the identity
+of the value written — so what a `swap` takes out is exactly what its immediate predecessor in the
+order of writes put in.  Not one statement yet: every value put into a container comes out exactly
+once (it is the accounting of C02: `C02_global_ledger_env`, `C02_at_rest_counts`); that the
+returned handle owns a full reference independent of the container is `C01_handle_value_alive`.
 -/
 
 namespace C04
@@ -92,5 +96,44 @@ theorem C04_cas_write (cfg : Cfg) (c cur new : Nat) (s : Shared) (l : Locals) (o
 
 example : ∃ st : State, (st.th 0).op = .swapSw 0 5 1 false ∧ st.sh.cells 0 = some 3 :=
   ⟨{ sh := { cells := fun _ => some 3 }, th := fun _ => { op := .swapSw 0 5 1 false } }, rfl, rfl⟩
+
+/-! ## The order of writes -/
+
+/-- **one step and the history**: a step leaves a container and its history alone, or writes it
+    (the history grows at the front by the identity of the value written, and the container held
+    something before), or creates it, or ends it -/
+theorem C04_history_grows_by_writes (st : State) (t : Nat) (b : Bool) (c : Nat) :
+    CellStep st.sh (microStep st t b).1.sh c :=
+  microStep_cell_hist st t b c
+
+/-- **the container holds the latest write (partial)**: along every execution that satisfies the
+    ledger's assumptions and has raised no fault, a container holds the object whose identity is
+    the head of its history -/
+theorem C04_container_holds_latest_write_partial (K N T : Nat) (hK : 0 < K) (cfg : Cfg)
+    (progs : Nat → List (String × Op)) (sched : List (Nat × Bool))
+    (he : EnvRun0 K N T (State.initial cfg progs) sched)
+    (hf : (run (State.initial cfg progs) sched).sh.fault = none) (c p : Nat)
+    (hc : (run (State.initial cfg progs) sched).sh.cells c = some p) :
+    ∃ rest, (run (State.initial cfg progs) sched).sh.hist c = (run (State.initial cfg progs) sched).sh.idOf p :: rest :=
+  (cellHist_run K N T hK cfg progs sched he hf c p hc).2
+
+/-- **`swap` returns exactly the value written by its immediate predecessor (partial)**: at the
+    exchange of a `swap`/`store`, the value taken out is the object whose identity heads the
+    history (the last write before this one), and afterwards the history is this write on top of
+    it -/
+theorem C04_swap_takes_out_predecessor_partial (K N T : Nat) (hK : 0 < K) (cfg : Cfg)
+    (progs : Nat → List (String × Op)) (sched : List (Nat × Bool))
+    (he : EnvRun0 K N T (State.initial cfg progs) sched)
+    (hf : (run (State.initial cfg progs) sched).sh.fault = none)
+    (t : Nat) (b : Bool) (c a out old : Nat) (isStore : Bool)
+    (hop : ((run (State.initial cfg progs) sched).th t).op = .swapSw c a out isStore)
+    (hc : (run (State.initial cfg progs) sched).sh.cells c = some old) :
+    ∃ rest, (run (State.initial cfg progs) sched).sh.hist c = (run (State.initial cfg progs) sched).sh.idOf old :: rest ∧
+      (microStep (run (State.initial cfg progs) sched) t b).1.sh.hist c =
+        (run (State.initial cfg progs) sched).sh.idOf a :: (run (State.initial cfg progs) sched).sh.idOf old :: rest ∧
+      ((microStep (run (State.initial cfg progs) sched) t b).1.th t).op = .swapPay c out old isStore .start := by
+  obtain ⟨rest, hr⟩ := (cellHist_run K N T hK cfg progs sched he hf c old hc).2
+  have h := C04_swap_step _ t b c a out old isStore hop hc
+  exact ⟨rest, hr, by rw [h.2.1, hr], h.2.2.1⟩
 
 end C04
